@@ -37,10 +37,10 @@ BACKSL = [b"\\n", b"\\c", b"\\0101", b"\\\\", b"\\", b"\\t", b"\\x41", b"\\1", b
 META = [b" ", b"  ", b"'", b'"', b"$x", b"${HOME}", b"$(id)", b"`id`", b"$V0", b"${V0}", b"!", b"!!", b"*", b"?",
         b"[a]", b"~", b"#", b";", b"&", b"|", b"<", b">", b"(", b")", b"{a,b}", b"\n", b"\n\n", b"=", b"%s", b"%d%%",
         b"-n", b"-e", b"-E", b"--", b"-", b"\t"]
-CTRL = [bytes([c]) for c in (1, 2, 5, 6, 7, 8, 11, 12, 14, 0x1B, 0x1F, 3, 4, 0x15, 0x7F)]
+CTRL = [bytes([c]) for c in (1, 2, 5, 6, 7, 8, 11, 12, 14, 0x1B, 0x1F, 3, 4, 0x15, 0x7F, 0x11, 0x13, 0x16, 0x17, 0x1A, 0x1C)]
 UTF = ["é".encode(), "✓".encode(), "😀".encode(), "ä ö".encode()]
 FIXED = [b"", b"-n", b"-e", b"-E x", b"--", b"a\\nb", b"x\\c y", b"a\\0101", b"\\\\", b"a\\", b"'", b'"', b"$(id)",
-         b"${V0}", b"*", b"a b  ", b"  ", b"\n", b"a\nb\n", b"%s%d", b"it's\ntwo 'lines'", b"'\n", b"\n'", b"first\n^second", b"\n^a^b", b"/tmp/x y", b"/opt/a'b", b"/usr/lib/$x", b"/a/b/c", b"/", b"^x^y", b"a\n!b", b"\n#c", b"a\n\\'b", b"\"\n$x'", b"\xc3\xa9\xe2\x9c\x93", b"-", b" ", b"\\"]
+         b"${V0}", b"*", b"a b  ", b"  ", b"\n", b"a\nb\n", b"%s%d", b"it's\ntwo 'lines'", b"'\n", b"\n'", b"first\n^second", b"\n^a^b", b"release\n", b"42\n", b"/usr/bin:/bin\n", b"make all\x17install", b"/tmp/x y", b"/opt/a'b", b"/usr/lib/$x", b"/a/b/c", b"/", b"^x^y", b"a\n!b", b"\n#c", b"a\n\\'b", b"\"\n$x'", b"\xc3\xa9\xe2\x9c\x93", b"-", b" ", b"\\"]
 
 
 def gen_value(rng):
